@@ -174,6 +174,8 @@ struct St {
     script: VecDeque<Out>,
     listening: bool,
     stop: bool,
+    /// the node is dead: every connect is refused (and recorded) until revived
+    dead: bool,
     cur_call: u64,
     serial: u64,
     attempts: Vec<Attempt>,
@@ -278,8 +280,55 @@ pub fn seam_works() -> Result<(), String> {
 /// of our own nodes that drew the same free port in the same instant share it.
 static PORT_ALLOC: Mutex<()> = Mutex::new(());
 
+/// Ports outside the kernel's ephemeral range (32768..), used when that range has
+/// no free port left: every connection the fleet closes leaves its ephemeral port
+/// in TIME_WAIT for a minute, and `bind(0)` will not hand out such a port, so a
+/// few runs in quick succession (or in parallel) can use the range up. An
+/// explicitly chosen port below the range is never taken by an outgoing
+/// connection.
+const PRIVATE_PORTS: std::ops::Range<u32> = 12000..32000;
+static PRIVATE_NEXT: std::sync::atomic::AtomicU32 = std::sync::atomic::AtomicU32::new(0);
+pub static PRIVATE_PORTS_USED: std::sync::atomic::AtomicU64 = std::sync::atomic::AtomicU64::new(0);
+
+/// Bind exclusively (no SO_REUSEPORT yet, so the kernel refuses a port that any
+/// live socket or any remnant of an earlier node still holds, in this process or
+/// another), then set SO_REUSEPORT for the children and the later re-listens.
+fn bind_private_port() -> Result<(TcpListener, u16), String> {
+    let span = PRIVATE_PORTS.end - PRIVATE_PORTS.start;
+    let seed = std::process::id().wrapping_mul(7919);
+    for _ in 0..span {
+        let k = PRIVATE_NEXT.fetch_add(1, Ordering::Relaxed);
+        let port = (PRIVATE_PORTS.start + (seed.wrapping_add(k)) % span) as u16;
+        unsafe {
+            let fd = libc::socket(libc::AF_INET, libc::SOCK_STREAM | libc::SOCK_CLOEXEC, 0);
+            if fd < 0 {
+                return Err(format!("socket: {}", std::io::Error::last_os_error()));
+            }
+            let sa = sockaddr(port);
+            if libc::bind(fd, &sa as *const _ as *const libc::sockaddr, sa_len()) != 0 {
+                libc::close(fd);
+                continue;
+            }
+            let one: libc::c_int = 1;
+            libc::setsockopt(
+                fd,
+                libc::SOL_SOCKET,
+                libc::SO_REUSEPORT,
+                &one as *const _ as *const libc::c_void,
+                std::mem::size_of::<libc::c_int>() as libc::socklen_t,
+            );
+            PRIVATE_PORTS_USED.fetch_add(1, Ordering::Relaxed);
+            return Ok((TcpListener::from_raw_fd(fd), port));
+        }
+    }
+    Err(format!("no free port in {PRIVATE_PORTS:?} either"))
+}
+
 fn new_bound_socket() -> Result<(TcpListener, u16), String> {
     let _one_at_a_time = PORT_ALLOC.lock().unwrap_or_else(|p| p.into_inner());
+    if std::env::var_os("C19_PRIVATE_PORTS").is_some() {
+        return bind_private_port();
+    }
     for _ in 0..64 {
         // find a free port
         let port = unsafe {
@@ -291,6 +340,10 @@ fn new_bound_socket() -> Result<(TcpListener, u16), String> {
             if libc::bind(fd, &sa as *const _ as *const libc::sockaddr, sa_len()) != 0 {
                 let e = std::io::Error::last_os_error();
                 libc::close(fd);
+                if e.raw_os_error() == Some(libc::EADDRINUSE) {
+                    // the ephemeral range is used up (TIME_WAIT remnants)
+                    return bind_private_port();
+                }
                 return Err(format!("bind(0): {e}"));
             }
             let mut out: libc::sockaddr_in = std::mem::zeroed();
@@ -309,8 +362,19 @@ fn new_bound_socket() -> Result<(TcpListener, u16), String> {
             if fd < 0 {
                 return Err(format!("socket: {}", std::io::Error::last_os_error()));
             }
-            // SO_REUSEPORT (and not SO_REUSEADDR): listen() can be re-entered
-            // while accepted children or their TIME_WAIT remnants share the
+            // Bind exclusively first: without SO_REUSEPORT the kernel refuses the port if
+            // anybody else got hold of it since the probe was closed (with the option set
+            // before bind(), another process of this same harness that was handed the same
+            // free port in the same instant -- likely when the ephemeral range is almost
+            // used up -- would silently share the port, and the two fake nodes would see
+            // each other's connections).
+            let sa = sockaddr(port);
+            if libc::bind(fd, &sa as *const _ as *const libc::sockaddr, sa_len()) != 0 {
+                libc::close(fd);
+                continue; // somebody took it in between; try another
+            }
+            // SO_REUSEPORT (and not SO_REUSEADDR), set once the port is ours: listen() can
+            // be re-entered while accepted children or their TIME_WAIT remnants share the
             // port (they inherit the option), and nobody who does not set the
             // option too (same uid) can bind the port while we do not listen
             let one: libc::c_int = 1;
@@ -321,15 +385,11 @@ fn new_bound_socket() -> Result<(TcpListener, u16), String> {
                 &one as *const _ as *const libc::c_void,
                 std::mem::size_of::<libc::c_int>() as libc::socklen_t,
             );
-            let sa = sockaddr(port);
-            if libc::bind(fd, &sa as *const _ as *const libc::sockaddr, sa_len()) != 0 {
-                libc::close(fd);
-                continue; // somebody took it in between; try another
-            }
             return Ok((TcpListener::from_raw_fd(fd), port));
         }
     }
-    Err("no free port after 64 tries".into())
+    // the few free ephemeral ports keep being taken by others: leave the range
+    bind_private_port()
 }
 
 fn sockaddr(port: u16) -> libc::sockaddr_in {
@@ -380,7 +440,22 @@ impl Shared {
             return;
         }
         st.connects_seen += 1;
-        if st.script.front() == Some(&Out::Refused) {
+        if st.dead {
+            // a dead node refuses every connect, without consuming the script
+            st.serial += 1;
+            let a = Attempt {
+                serial: st.serial,
+                call: st.cur_call,
+                outcome: Out::Refused,
+                realized: Realized::Refused,
+                conn: 0,
+                fresh_conn: false,
+                scripted: false,
+            };
+            st.attempts.push(a);
+            st.last_failure = Some(Out::Refused);
+            self.set_listening(&mut st, false);
+        } else if st.script.front() == Some(&Out::Refused) {
             st.script.pop_front();
             st.serial += 1;
             let a = Attempt {
@@ -621,6 +696,7 @@ fn accept_loop(sh: Arc<Shared>) {
                 match s.try_clone() {
                     Ok(c) => {
                         st.conns.insert(conn, c);
+                        sh.cv.notify_all();
                     }
                     Err(e) => {
                         st.errors.push(format!("try_clone: {e}"));
@@ -669,6 +745,7 @@ impl FakeNode {
                 script: script.into(),
                 listening: false,
                 stop: false,
+                dead: false,
                 cur_call: 0,
                 serial: 0,
                 attempts: Vec::new(),
@@ -715,6 +792,78 @@ impl FakeNode {
 
     pub fn remaining(&self) -> usize {
         self.sh.lock().script.len()
+    }
+
+    /// Replace what is left of the script (the listening state follows at the
+    /// next `begin_call` / connect).
+    pub fn set_script(&self, script: Vec<Out>) -> usize {
+        let mut st = self.sh.lock();
+        let dropped = st.script.len();
+        st.script = script.into();
+        dropped
+    }
+
+    /// Dead: every connect is refused and recorded as a refused attempt, for as
+    /// long as it lasts (established connections die at the next `begin_call`).
+    pub fn set_dead(&self, dead: bool) {
+        self.sh.lock().dead = dead;
+    }
+
+    /// The fleet has just been told to connect (connect_all /
+    /// reconnect_disconnected) and has returned: wait until every connect that
+    /// was not refused has been accepted, then record that the fleet holds the
+    /// connections on which no request has travelled yet (so that killing one
+    /// while idle excuses one failed attempt, exactly as for a connection whose
+    /// last request was answered). Returns how many such connections there are.
+    pub fn mark_held(&self) -> Result<usize, String> {
+        let sh = &self.sh;
+        let mut st = sh.lock();
+        let w = Watch::start();
+        loop {
+            let refused = st.attempts.iter().filter(|a| a.realized == Realized::Refused).count() as u64;
+            if st.accepted + refused >= st.connects_seen {
+                break;
+            }
+            if w.expired() {
+                return Err(format!(
+                    "{}: {} connects seen, {} refused, only {} accepted",
+                    sh.name, st.connects_seen, refused, st.accepted
+                ));
+            }
+            let (g, _) = sh.cv.wait_timeout(st, Duration::from_millis(20)).unwrap_or_else(|p| p.into_inner());
+            st = g;
+        }
+        let unused: Vec<u64> = st.conns.keys().copied().filter(|c| !st.conn_requests.contains_key(c)).collect();
+        for c in &unused {
+            st.conn_answered.insert(*c, true);
+        }
+        Ok(unused.len())
+    }
+
+    pub fn live_conns(&self) -> usize {
+        self.sh.lock().conns.len()
+    }
+
+    /// The fleet has just discarded its client(s) for this node (disconnect_all,
+    /// a failed health_check, remove_node): wait until the node has seen every
+    /// connection end, so that what the node believes the fleet holds does not
+    /// depend on how fast the fleet's side closes. false = still open after the watchdog.
+    pub fn wait_conns_gone(&self) -> bool {
+        let sh = &self.sh;
+        let mut st = sh.lock();
+        let w = Watch::start();
+        while !st.conns.is_empty() {
+            if w.expired() {
+                return false;
+            }
+            let (g, _) = sh.cv.wait_timeout(st, Duration::from_millis(20)).unwrap_or_else(|p| p.into_inner());
+            st = g;
+        }
+        true
+    }
+
+    pub fn connects_seen(&self) -> u64 {
+        self.sh.lock().connects_seen
     }
 
     /// Drop what is left of the script: from now on every request is answered
@@ -770,7 +919,7 @@ impl FakeNode {
         let down = {
             let mut st = self.sh.lock();
             st.cur_call = call;
-            let down = st.script.front() == Some(&Out::Refused);
+            let down = st.dead || st.script.front() == Some(&Out::Refused);
             if down {
                 self.sh.set_listening(&mut st, false);
             }
